@@ -13,6 +13,7 @@ theorem payloadLen_lt (p : Profile) (k : HK) (d : Nat) (h : d < k.hsize) :
   · left; simp only [payloadLen]; rw [if_neg (by omega)]
   · right; left; simp only [payloadLen]; congr 1; omega
   · right; left; simp only [payloadLen]; congr 1; omega
+  · left; simp only [payloadLen]; rw [if_neg (by omega)]
   all_goals
     cases p
     · left; simp only [payloadLen, usub]; rw [if_neg (by omega)]
